@@ -45,6 +45,14 @@ def _c12_inner(case, v):
     return 'seq' in case and has(case['seq'])
 
 
+@family('C08_bem_lookup_default')
+def _c08_bem(case, v):
+    """the only container that grew is the mutable default argument `lookup` of emmet.markup.addon.bem.get_block_name"""
+    import re
+    keys = re.findall(r"'(emmet[^']*)': \(", v)
+    return bool(keys) and all(k == 'emmet.markup.addon.bem.get_block_name.__defaults__[2]' for k in keys)
+
+
 def attribute(known, prop, domname, dom, case, v):
     for f in known:
         if f.get('domain') and f['domain'] != domname: continue
